@@ -560,6 +560,20 @@ def refundPacket (s : State) (p : RefundPacket) : Except Err State :=
     | none => .error .exec
     | some s' => .ok s'
 
+/-! ## upgrades -/
+
+/-- The Aspen upgrade as far as the modelled state is concerned
+    (`AuthorityComponent::handle_aspen_upgrade` + the price-feed genesis): the validator set moves
+    from one stored collection to per-validator entries plus a count, and the oracle's genesis
+    currency pairs and markets appear. The set itself is unchanged. -/
+def aspenUpgrade (s : State) (pairs : List (String × Nat)) (markets : List (String × Nat)) : State :=
+  { s with postAspen := true, valCount := s.vals.length,
+           pairs := pairs, numPairs := pairs.length, nextPairId := pairs.length, markets := some markets }
+
+/-- The Blackburn upgrade: ICS20 receives are restricted to fee assets and bridge deposits can be
+    disabled. -/
+def blackburnUpgrade (s : State) : State := { s with postBlackburn := true }
+
 /-! ## end of block -/
 
 def payFees (s : State) : List (String × Nat) → Option State
